@@ -1,7 +1,7 @@
 (** C20 - Peers relay a consensus message only if the local handler accepted it.
     This file contains only statements closed by [exact] plus [Print Assumptions]. *)
 From Coq Require Import List NArith ZArith.
-From GV Require Import Base.Ints Model.P2PRelayVocab Gen.Feedback Gen.RelaySwap Model.P2PRelay Monitors.C20m Proofs.P2PRelay.
+From GV Require Import Base.Ints Model.P2PRelayVocab Gen.Feedback Gen.RelaySwap Model.P2PRelay Monitors.C20m Proofs.P2PRelay Proofs.DaisyChain.
 Import ListNotations.
 Local Open Scope N_scope.
 
@@ -67,3 +67,30 @@ Print Assumptions C20_model_satisfies_feedback_mon.
 Theorem C20_model_satisfies_wrapper_mon : forall h m, c20_wrapper_mon (wobs_of h m) = true.
 Proof. exact model_satisfies_wrapper_mon. Qed.
 Print Assumptions C20_model_satisfies_wrapper_mon.
+
+(** DaisyChain test network *)
+Theorem C20_daisy_travel_spec : forall l k i j, NoDup (map fst l) ->
+  (In j (dc_travel l k i) <-> exists l1 h l2, l = l1 ++ (j, Some h) :: l2 /\ Forall (passes k i) l1).
+Proof. exact daisy_travel_spec. Qed.
+Print Assumptions C20_daisy_travel_spec.
+
+(* Full statement, FALSE of the DaisyChain model (known finding daisychain-nil-handler-passthrough):
+   forall l k i j, In j (dc_travel l k i) -> exists l1 h l2, l = l1 ++ (j, Some h) :: l2 /\
+     Forall (fun n => exists hx, snd n = Some hx /\ hx k i = FeedbackAccepted) l1. *)
+Theorem C20_daisy_no_handler_no_relay_refuted : ~ daisy_no_handler_no_relay_statement.
+Proof. exact daisy_no_handler_no_relay_refuted. Qed.
+Print Assumptions C20_daisy_no_handler_no_relay_refuted.
+
+Theorem C20_daisy_relay_only_if_accepted_partial : forall l k i j,
+  Forall (fun n => snd n <> None) l -> In j (dc_travel l k i) ->
+  exists l1 h l2, l = l1 ++ (j, Some h) :: l2 /\
+    Forall (fun n => exists hx, snd n = Some hx /\ hx k i = FeedbackAccepted) l1.
+Proof. exact daisy_relay_only_if_accepted_partial. Qed.
+Print Assumptions C20_daisy_relay_only_if_accepted_partial.
+
+Theorem C20_model_satisfies_daisy_mon_abc : forall (hb : option handler) (origin : nat) k i, (origin < 3)%nat ->
+  c20_daisy_mon false
+    [Some 1; match hb with Some h => Some (h k i) | None => None end; Some 1] origin
+    (dc_send [Some acc_all; hb; Some acc_all] origin k i) = true.
+Proof. exact model_satisfies_daisy_mon_abc. Qed.
+Print Assumptions C20_model_satisfies_daisy_mon_abc.
